@@ -1,6 +1,6 @@
 //go:build verif
 
-package arp_spoofer
+package dhcp4_spoofer
 
 // Ghost vocabulary of the contract harnesses (build tag verif only).
 // govc gives these functions their logical meaning; the Go bodies are what a
